@@ -11,7 +11,7 @@ echo
 echo "| seed | property | check exit | violation kinds (count stored) |"
 echo "|------|----------|-----------|-------------------------------|"
 } > $out
-for d in "$ROOT"/seeded/C*-m*/; do
+for d in "$ROOT"/seeded/C*-[mr]*/; do
   id=$(basename $d); prop=${id%%-*}
   props="$prop $(cat $d/also 2>/dev/null)"
   for p in $props; do
